@@ -887,6 +887,45 @@ fn main() {
     if args.len() >= 2 && args[1] == "--threads" {
         std::process::exit(threads::run(&args[2..]));
     }
+    if args.len() >= 5 && args[1] == "--cold" {
+        // cold start: N threads are released together and run the same request list as their very first library
+        // calls (lazily initialised shared state is built under contention); output: "#T <i>" + one line per request
+        use std::sync::atomic::{AtomicUsize, Ordering};
+        use std::sync::Arc;
+        let n: usize = args[2].parse().expect("thread count");
+        let text = std::fs::read_to_string(&args[3]).expect("cannot read request file");
+        let lines: Arc<Vec<String>> = Arc::new(
+            text.lines().map(|l| l.trim().to_string()).filter(|l| !l.is_empty() && !l.starts_with('#')).collect(),
+        );
+        let gate = Arc::new(AtomicUsize::new(0));
+        let handles: Vec<_> = (0..n)
+            .map(|_| {
+                let lines = lines.clone();
+                let gate = gate.clone();
+                std::thread::spawn(move || {
+                    gate.fetch_add(1, Ordering::SeqCst);
+                    while gate.load(Ordering::SeqCst) < n {
+                        std::hint::spin_loop();
+                    }
+                    lines.iter().map(|l| run_line(l)).collect::<Vec<String>>()
+                })
+            })
+            .collect();
+        let mut w = BufWriter::new(std::fs::File::create(&args[4]).expect("cannot create output file"));
+        for (i, h) in handles.into_iter().enumerate() {
+            writeln!(w, "#T {}", i).unwrap();
+            match h.join() {
+                Ok(v) => {
+                    for l in v {
+                        writeln!(w, "{}", l).unwrap();
+                    }
+                }
+                Err(_) => writeln!(w, "#THREAD-DIED").unwrap(),
+            }
+        }
+        w.flush().unwrap();
+        return;
+    }
     if args.len() >= 2 && args[1] == "--sweep-f32" {
         std::process::exit(sweeps::sweep_f32(&args[2..]));
     }
